@@ -25,7 +25,7 @@ theorem publish_accepted_is_statically_valid (p : Publish) (hq : p.qos ≤ 2)
     (hf : ∀ f, p.payloadFormat = some f → f ≤ 1) :
     validateOutbound (.publish p) = .ok () → Spec.publishStaticOk p = true := by
   unfold validateOutbound vPublishOutbound
-  simp only [bind_ok_iff, okIf_ok, vOptLen_ok, vUserProps_ok, isValidTopic_iff]
+  simp only [bind_ok_iff, okIf_ok, vOptLen_ok, vOptStr_ok, vUserProps_ok, isValidTopic_iff]
   intro ⟨_, h2, _, h4, h5, h6, h7, h8, h9, h10⟩
   have hrt : (match p.responseTopic with | none => true | some t => Spec.topicNameValid t) = true := by
     cases hr : p.responseTopic with
@@ -100,18 +100,19 @@ theorem oversized_publish_never_accepted (p : Publish) (s : Settings) (r : Optio
   rfl
 
 /-- **The CONNECT built from the options passes validation only if its will is a valid message**: the will topic and the
-    will's response topic are topic names (non-empty, no wildcard, at most 65535 bytes) and every string and binary field of
-    the CONNECT and of the will fits its two-byte length prefix. -/
+    will's response topic are topic names (non-empty, no wildcard, no null character, at most 65535 bytes), every binary
+    field of the CONNECT and of the will fits its two-byte length prefix, and every string field does so and is free of the
+    null character ([MQTT-1.5.4-2]). -/
 theorem connect_accepted_has_valid_will (c : Connect) (w : Publish) (hw : c.will = some w) :
     validateOutbound (.connect c) = .ok () →
       Spec.topicNameValid w.topic = true ∧
       (∀ rt, w.responseTopic = some rt → Spec.topicNameValid rt = true) ∧
-      Spec.optOk w.payload = true ∧ Spec.optOk w.contentType = true ∧ Spec.optOk w.correlationData = true ∧
-      Spec.optOk w.responseTopic = true ∧ Spec.upsOk w.userProps = true ∧
-      Spec.optOk c.clientId = true ∧ Spec.optOk c.username = true ∧ Spec.optOk c.password = true ∧
+      Spec.optOk w.payload = true ∧ Spec.optStrOk w.contentType = true ∧ Spec.optOk w.correlationData = true ∧
+      Spec.optStrOk w.responseTopic = true ∧ Spec.upsOk w.userProps = true ∧
+      Spec.optStrOk c.clientId = true ∧ Spec.optStrOk c.username = true ∧ Spec.optOk c.password = true ∧
       Spec.upsOk c.userProps = true := by
   unfold validateOutbound vConnectOutbound
-  simp only [hw, bind_ok_iff, okIf_ok, vOptLen_ok, vUserProps_ok, isValidTopic_iff]
+  simp only [hw, bind_ok_iff, okIf_ok, vOptLen_ok, vOptStr_ok, vUserProps_ok, isValidTopic_iff]
   intro ⟨h1, _, _, _, _, _, h7, h8, h9, h10, h11, h12, h13, _, h15, h16, h17⟩
   refine ⟨h16, ?_, h15, h10, h12, h11, h13, h1, h7, h8, h9⟩
   intro rt hrt
@@ -143,6 +144,15 @@ example :
     (!accepted (validateOutbound (.subscribe { subscriptions := [{ topicFilter := [97] }], subscriptionId := some 0 })) &&
      !accepted (validateOutbound (.subscribe { subscriptions := [{ topicFilter := [97] }], subscriptionId := some 268435456 })) &&
      accepted (validateOutbound (.subscribe { subscriptions := [{ topicFilter := [97] }], subscriptionId := some 268435455 }))) = true := by
+  decide
+
+/-- the null character is refused wherever a UTF-8 string goes: topic name, topic filter, user property, content type -/
+example :
+    (!accepted (validateOutbound (.publish { topic := [97, 0, 98] })) &&
+     !accepted (validateOutbound (.publish { topic := [97], userProps := some [{ name := [107, 0], value := [118] }] })) &&
+     !accepted (validateOutbound (.publish { topic := [97], contentType := some [0] })) &&
+     accepted (validateOutbound (.publish { topic := [97], correlationData := some [0, 0], payload := some [0] })) &&
+     !(filterProps [97, 47, 0, 47, 35]).isValid) = true := by
   decide
 
 /-- Non-vacuity: a concrete PUBLISH accepted by both validators exactly up to the size limit. -/
